@@ -42,6 +42,11 @@ type evBus struct {
 	handlers map[string]*evHandler
 	seq      int64
 	log      []evRec
+	subd     map[string]bool            // handlers the harness has subscribed (all calls go through sub / unsub)
+	atPub    map[string]map[string]bool // top-level event -> the handlers subscribed when it was published
+	started  map[string]bool            // event/handler -> the handler has been entered for the event
+	starved  bool                       // a handler waited in vain for another handler of the same event
+	pubG     map[uint64]bool            // goroutines that are inside Publish (deliveries made on them are core-level ones)
 }
 type evRec struct {
 	ev, h, level string
@@ -51,6 +56,10 @@ type evHandler struct {
 	bus  *evBus
 	name string
 	body evBody
+	// twin: the same object is also registered at the application level under this name (a core-level delivery runs on
+	// the publishing goroutine, an application-level one on a goroutine of its own: that tells them apart)
+	twin     string
+	twinBody evBody
 }
 
 func evLevel(h string) string {
@@ -60,7 +69,21 @@ func evLevel(h string) string {
 	return "app"
 }
 
+func (b *evBus) publish(p api.EventPayload) {
+	g := curGid()
+	b.mu.Lock()
+	b.pubG[g] = true
+	b.mu.Unlock()
+	spine.Events.Publish(p)
+	b.mu.Lock()
+	delete(b.pubG, g)
+	b.mu.Unlock()
+}
+
 func (b *evBus) sub(h string) {
+	b.mu.Lock()
+	b.subd[h] = true
+	b.mu.Unlock()
 	if evLevel(h) == "core" {
 		spine.VerifSubscribeCore(b.handlers[h])
 	} else {
@@ -68,6 +91,9 @@ func (b *evBus) sub(h string) {
 	}
 }
 func (b *evBus) unsub(h string) {
+	b.mu.Lock()
+	delete(b.subd, h)
+	b.mu.Unlock()
 	if evLevel(h) == "core" {
 		spine.VerifUnsubscribeCore(b.handlers[h])
 	} else {
@@ -77,7 +103,18 @@ func (b *evBus) unsub(h string) {
 
 func (h *evHandler) HandleEvent(p api.EventPayload) {
 	b := h.bus
+	if h.twin != "" {
+		b.mu.Lock()
+		onPub := b.pubG[curGid()]
+		b.mu.Unlock()
+		if !onPub {
+			h = &evHandler{bus: b, name: h.twin, body: h.twinBody}
+		}
+	}
 	rec := evRec{ev: p.Ski, h: h.name, level: evLevel(h.name), start: atomic.AddInt64(&b.seq, 1)}
+	b.mu.Lock()
+	b.started[p.Ski+"/"+h.name] = true
+	b.mu.Unlock()
 	if rec.level == "core" {
 		// give application handlers that were (wrongly) started already a chance to run before this one ends
 		for i := 0; i < 200; i++ {
@@ -97,9 +134,34 @@ func (h *evHandler) HandleEvent(p api.EventPayload) {
 			b.unsub(h.body.Arg)
 		case "sub":
 			b.sub(h.body.Arg)
+		case "waitfor":
+			// an application handler that does not return before another application handler of the same event has
+			// been entered (handlers of one event are independent of each other: each gets the event, whatever the
+			// others do meanwhile); only if that handler was subscribed when the event was published
+			b.mu.Lock()
+			due := b.atPub[p.Ski][h.body.Arg]
+			b.mu.Unlock()
+			if due {
+				deadline := time.Now().Add(3 * time.Second)
+				for {
+					b.mu.Lock()
+					ok := b.started[p.Ski+"/"+h.body.Arg]
+					b.mu.Unlock()
+					if ok {
+						break
+					}
+					if time.Now().After(deadline) {
+						b.mu.Lock()
+						b.starved = true
+						b.mu.Unlock()
+						break
+					}
+					time.Sleep(50 * time.Microsecond)
+				}
+			}
 		case "publish":
 			if rec.level == "app" { // a core handler that publishes would block on the bus itself; not required by the property
-				spine.Events.Publish(api.EventPayload{Ski: p.Ski + "n"})
+				b.publish(api.EventPayload{Ski: p.Ski + "n"})
 			}
 		}
 	}
@@ -151,7 +213,7 @@ func eventsReplay(args []string) {
 		var beh []Action
 		must(json.Unmarshal(sc.Bytes(), &beh))
 		must(enc.Encode(map[string]string{"op": "reset"}))
-		bus := &evBus{handlers: map[string]*evHandler{}}
+		bus := &evBus{handlers: map[string]*evHandler{}, subd: map[string]bool{}, atPub: map[string]map[string]bool{}, started: map[string]bool{}, pubG: map[uint64]bool{}}
 		for _, h := range []string{"c1", "c2", "c3", "a1", "a2", "a3"} {
 			eh := &evHandler{bus: bus, name: h, body: evBody{Kind: "none"}}
 			if b, ok := bodies[h]; ok && len(b) > 0 {
@@ -161,6 +223,12 @@ func eventsReplay(args []string) {
 				}
 			}
 			bus.handlers[h] = eh
+		}
+		if tw, ok := bodies["_twins"]; ok && len(tw) == 2 {
+			// one object registered at both levels: tw[0] at the core level, tw[1] at the application level
+			core, app := bus.handlers[tw[0]], bus.handlers[tw[1]]
+			core.twin, core.twinBody = tw[1], app.body
+			bus.handlers[tw[1]] = core
 		}
 		for _, a := range beh {
 			line := EvLine{Op: a.str("op"), H: a.str("h"), Ev: a.str("ev"), Del: []evDel{}}
@@ -172,7 +240,14 @@ func eventsReplay(args []string) {
 				case "unsub":
 					bus.unsub(line.H)
 				case "publish":
-					spine.Events.Publish(api.EventPayload{Ski: line.Ev})
+					bus.mu.Lock()
+					snap := map[string]bool{}
+					for k := range bus.subd {
+						snap[k] = true
+					}
+					bus.atPub[line.Ev] = snap
+					bus.mu.Unlock()
+					bus.publish(api.EventPayload{Ski: line.Ev})
 				}
 				done <- atomic.AddInt64(&bus.seq, 1)
 			}()
@@ -183,11 +258,18 @@ func eventsReplay(args []string) {
 				line.Blocked = true
 			}
 			if !evQuiesce(base) {
-				line.Blocked = true
+				// (a handler that waits for another one may take its full 3 s)
+				if !evQuiesce(base) {
+					line.Blocked = true
+				}
 			}
 			bus.mu.Lock()
 			recs := bus.log
 			bus.log = nil
+			if bus.starved {
+				line.Blocked = true
+				bus.starved = false
+			}
 			bus.mu.Unlock()
 			// order flags per event
 			coreEnd := map[string]int64{}
@@ -243,7 +325,7 @@ func eventsStress(args []string) {
 	enc := json.NewEncoder(out)
 	base := runtime.NumGoroutine()
 	for r := 0; r < *rounds; r++ {
-		bus := &evBus{handlers: map[string]*evHandler{}}
+		bus := &evBus{handlers: map[string]*evHandler{}, subd: map[string]bool{}, atPub: map[string]map[string]bool{}, started: map[string]bool{}, pubG: map[uint64]bool{}}
 		names := []string{"c1", "c2", "a1", "a2", "a3"}
 		for _, h := range names {
 			bus.handlers[h] = &evHandler{bus: bus, name: h, body: evBody{Kind: "none"}}
@@ -310,7 +392,7 @@ func eventsStress(args []string) {
 	// re-entrant rounds: handlers of both levels (un)subscribe from inside while several goroutines publish; the
 	// deliveries depend on the interleaving - required is that nothing blocks
 	for r := 0; r < (*rounds+1)/2; r++ {
-		bus := &evBus{handlers: map[string]*evHandler{}}
+		bus := &evBus{handlers: map[string]*evHandler{}, subd: map[string]bool{}, atPub: map[string]map[string]bool{}, started: map[string]bool{}, pubG: map[uint64]bool{}}
 		bodies := map[string]evBody{"c1": {Kind: "resub"}, "c2": {Kind: "unsub", Arg: "a3"}, "a1": {Kind: "resub"}, "a2": {Kind: "publish"}, "a3": {Kind: "sub", Arg: "a3"}}
 		for h, b := range bodies {
 			bus.handlers[h] = &evHandler{bus: bus, name: h, body: b}
